@@ -1013,11 +1013,15 @@ def type_check_args(
         new_args.append(a)
     assert next(comptime_args, None) is None
 
-    # If the argument check succeeded, this means that we must have found instantiations
-    # for all unification variables occurring in the input types
-    assert all(
-        set.issubset(inp.ty.unsolved_vars, subst.keys()) for inp in func_ty.inputs
-    )
+    # If the argument check succeeded, we have usually found instantiations for all
+    # unification variables occurring in the input types. The exception are arguments
+    # whose own type cannot be inferred, for example an empty `array()` passed for an
+    # `array[T, n]` (this only solves `n`)
+    for arg, func_inp in zip(new_args, func_ty.inputs, strict=True):
+        if not set.issubset(func_inp.ty.unsolved_vars, subst.keys()):
+            raise GuppyTypeInferenceError(
+                TypeInferenceError(arg, func_inp.ty.substitute(subst))
+            )
 
     # We also have to check that we found instantiations for all vars in the return type
     if not set.issubset(func_ty.output.unsolved_vars, subst.keys()):
